@@ -5,6 +5,7 @@ CONSTANTS
   PatSet <- Pats_quick
   NormKinds <- NormKinds_all
   MaxHist = 2
+  MaxQHist = 2
 CHECK_DEADLOCK FALSE
 INVARIANT TypeOK
 INVARIANT C15_NonzeroGetLength
